@@ -146,7 +146,7 @@ CHECKS['C05'] = dict(
          'over the lower_bound search, equal to the reference written with the public vector API on the same symbolic arguments (node '
          'state, H0 at x[ix] resp. at x itself, t-t_ini, weights (x-x_i)/(x_{i+1}-x_i)), for every interval, at every node (tie '
          'behaviour), after a previous query on an object of another dimension (thread-local buffer), and with the averaging overloads '
-         'under an unreachable scale (flags all false); ok-paths are decided infeasible for x outside the range and throw-paths for x inside.',
+         'under an unreachable scale (flags all false); ok-paths are decided infeasible for x outside the range and throw-paths for x inside. The node-indexed form is also asked of a solver object that received the configured problem by move assignment (into an object initialised with another t_ini and shape) or by move construction: t - t_ini, grid and states must travel with the object.',
     note='Trusted: clang-14 -O1 IR; virtual dispatch executed from the vtable in the IR; both sides use the library kernels (decided in '
          'C02/C03/C11), so the subject is the glue; quick: (d,nx,nrho) in 7 configurations up to d=6, nx=4; thorough: d=2..6 x nx=2..5.',
     design='§3 C05')
@@ -172,7 +172,7 @@ CHECKS['C10'] = dict(
          't_ini + sum dt as a polynomial identity (fixed stepping: t + n*(dt/n)); with all terms off the stored state is term-identical and '
          'PreDerive(t_new) is called exactly once on the evolving object; after every Evolve each in-step view is the stored state at its '
          'documented offset; after a move the ODE callbacks are bound to the new object and read the buffer handed to them; re-ini starts a '
-         'fresh clock; after every operation (moves included) the object in use reports the initial time it was given and the accumulated clock; a switch toggle is a single setter call.',
+         'fresh clock; after every operation (moves included) the object in use reports the initial time it was given and the accumulated clock; a switch toggle is a single setter call. A stale in-step view found under the stub is confirmed natively by calling the library\'s ODE callback the way rk4 / msadams do (new input array, output array of the previous call).',
     note='Trusted: as C04. OUTSIDE: equality of the integrated state with a single Evolve over the total interval (GSL integrators); '
          'exercised natively only (split vs single interval in the C04 replay).',
     design='§3 C10, §4')
